@@ -166,8 +166,9 @@ impl CsdV1 {
 
     /// Returns the card capacity in 512-byte blocks
     pub fn card_capacity_blocks(&self) -> u32 {
-        let multiplier = self.device_size_multiplier() + self.read_block_length() - 7;
-        (self.device_size() + 1) << multiplier
+        // Same as `card_capacity_bytes() / 512`, which cannot underflow when a
+        // card reports a block length below 512 bytes
+        (self.card_capacity_bytes() >> 9) as u32
     }
 }
 
@@ -209,7 +210,7 @@ impl CsdV2 {
 
     /// Returns the card capacity in 512-byte blocks
     pub fn card_capacity_blocks(&self) -> u32 {
-        (self.device_size() + 1) * 1024
+        (self.device_size() + 1).saturating_mul(1024)
     }
 }
 
